@@ -802,7 +802,7 @@ std::string formDescriptionOfCyclicDependency(const History &history, const std:
 
 void recordVariableEquivalences(const ComponentPtr &component, EquivalenceMap &equivalenceMap, IndexStack &indexStack);
 void generateEquivalenceMap(const ComponentPtr &component, EquivalenceMap &map, IndexStack &indexStack);
-void applyEquivalenceMapToModel(const EquivalenceMap &map, const ModelPtr &model);
+void applyEquivalenceMapToModel(const EquivalenceMap &map, const ModelPtr &model, const ModelConstPtr &sourceModel = nullptr);
 NameList componentNames(const ModelPtr &model);
 NameList unitsNamesUsed(const ComponentPtr &component);
 EquivalenceMap rebaseEquivalenceMap(const EquivalenceMap &map, const IndexStack &originStack, const IndexStack &destinationStack);
